@@ -26,6 +26,7 @@ clause tokens (`:`-separated, `-` = absent; id = kind letter + number, e.g. `C3`
   co:<ref>:<ref>                                 CORRECT EVIDENCE old BY new
   tr:<ref>:<status>:<status|->                   TRANSITION ACTIVITY target TO status [EXPECT STATE]
   sr:<ref>:<v>:<expect|->                        SET RETENTION target {retention_class: "r<v>"} [EXPECT VERSION]
+  mg:<ref>:<ref>:<expect|->                      MERGE CONCEPT source INTO target [EXPECT VERSION]
 status codes: 0 as created (active / an Activity's pending), 1 retracted, 2 empty (identity stub), 3 superseded,
 4 corrected, 5 running, 6 completed, 7 failed
 an element is printed as id/version/state/ty/key/val.att.fac.ret.links/pay/tuple/seq (links `_`-separated, `0` = none)
@@ -63,7 +64,7 @@ def parseBool (s : String) : Option Bool :=
 def parseSt (s : String) : Option St :=
   match s with
   | "a" => some .active | "r" => some .archived | "t" => some .tombstoned | "p" => some .pending
-  | "x" => some .purged | _ => none
+  | "x" => some .purged | "m" => some .merged | _ => none
 
 def parseRefs (s : String) : Option (List Ref) :=
   if s = "-" ∨ s = "" then some [] else (s.splitOn ",").mapM parseRef
@@ -106,6 +107,8 @@ def parseClause (tok : String) : Option Clause :=
       pure (.transition (← parseRef t) (← to.toNat?) (← parseOptNat ex))
   | ["sr", t, v, ex] => do
       pure (.setRetention (← parseRef t) (← v.toNat?) (← parseOptNat ex))
+  | ["mg", a, b, ex] => do
+      pure (.merge (← parseRef a) (← parseRef b) (← parseOptNat ex))
   | ["ss", t, to, ex] => do
       let ex ← if ex = "-" then some none else (parseSt ex).map some
       pure (.setState (← parseRef t) (← parseSt to) ex)
@@ -115,11 +118,11 @@ def showId (i : Id) : String := kindChar i.kind ++ toString i.n
 
 def showSt : St → String
   | .pending => "pending" | .active => "active" | .archived => "archived" | .tombstoned => "tombstoned"
-  | .purged => "purged"
+  | .purged => "purged" | .merged => "merged"
 
 def showOp : Op → String
   | .create => "create" | .update => "update" | .archive => "archive" | .tombstone => "tombstone" | .retract => "retract" | .purge => "purge"
-  | .supersede => "supersede" | .correct => "correct" | .transition => "transition" | .setRetention => "set_retention"
+  | .supersede => "supersede" | .correct => "correct" | .transition => "transition" | .setRetention => "set_retention" | .merge => "merge"
 
 def showErr : Err → String
   | .dupHandle => "invalid" | .invalid => "invalid" | .unknownHandle => "invalid" | .notFound => "notfound"
